@@ -35,7 +35,7 @@ class Result(object):
         self.sample = None
 
 
-def bfs(build, enabled, step, key, depth_bound, check, max_states=200000):
+def bfs(build, enabled, step, key, depth_bound, check, max_states=200000, max_violations=4):
     """build() -> fresh object in its initial state
     enabled(obj, hist) -> list of events applicable in the state reached by hist (obj is in that state)
     step(obj, event) -> observation (executes the event on the real object)
@@ -73,6 +73,11 @@ def bfs(build, enabled, step, key, depth_bound, check, max_states=200000):
             detail = check(hist, ev, obs, exc, obj)
             if detail is not None:
                 res.violations.append((list(hist), ev, detail))
+                if len(res.violations) >= max_violations:
+                    # enough counterexamples for this object: stop (a broken implementation may also be very slow)
+                    res.closed = False
+                    res.states = len(seen)
+                    return res
                 continue               # do not explore beyond a violating transition
             if exc is not None:
                 continue
